@@ -125,7 +125,11 @@ impl<'a, T: Read + Seek> QueueReader<'a, T> {
                     self.reader
                         .read_exact(&mut self.buffer)
                         .read_err("Failed to read data packet buffers")?;
-                    self.byte_streams[i].append(&self.buffer);
+                    // Records without bits never consume their stream: whatever a file
+                    // stores there would pile up and be copied again with every packet
+                    if self.pc.prototype[i].data_type.bit_size() != 0 {
+                        self.byte_streams[i].append(&self.buffer);
+                    }
                 }
 
                 // Find smallest number of expected items in any queue after stream unpacking.
